@@ -335,6 +335,7 @@ func genCases(seed int64, thorough bool, tis []*tinfo) []hcase {
 		}
 	}
 	cases = append(cases, semanticCases(reqT)...)
+	cases = append(cases, ifaceCases(seed, thorough)...)
 	return cases
 }
 
@@ -467,6 +468,7 @@ func runCase(rep reporter, c *hcase) {
 			}
 		}()
 		switch {
+		case runIfaceCase(c, input):
 		case strings.HasPrefix(c.entry, "struct:"):
 			_ = c.ti.e.New().ReadFrom(codec.NewReader(input))
 		case strings.HasPrefix(c.entry, "block:"):
@@ -543,6 +545,7 @@ func main() {
 		vlib.LimitAddressSpace(12 << 30)
 		runtime.GOMAXPROCS(2)
 		proto = tars.VerifNewApp().NewProtocol(nopDispatch{}, nil, true)
+		setupIface()
 		em := vlib.NewEmitter()
 		cases := genCases(seed, thorough, tis)
 		from, to := vlib.ChildRange()
